@@ -18,6 +18,7 @@ import (
 	"bytes"
 	"context"
 	"fmt"
+	"strings"
 
 	"k8s.io/klog/v2"
 
@@ -133,7 +134,9 @@ func (b *backend) processEvents(cancel context.CancelFunc, out chan<- []*proto.E
 	}
 	// channel closed by watcher hub due to slow process or ctx done
 	klog.InfoS("events chan closed", "chan", in, "prefix", prefix)
-	b.metricCli.EmitCounter("watcherhub.events_chan.closed", 1, metrics.Tag("prefix", prefix))
+	// prefix is the raw key of the client's Watch request: the Prometheus client panics on a label value that is
+	// not valid UTF-8 (and nobody recovers this goroutine), so sanitise it
+	b.metricCli.EmitCounter("watcherhub.events_chan.closed", 1, metrics.Tag("prefix", strings.ToValidUTF8(prefix, "\uFFFD")))
 
 	close(out)
 	klog.InfoS("watch channel closed", "prefix", prefix)
